@@ -27,6 +27,9 @@ type c15Input struct {
 	// the updated object reaches the validator as submitted, not defaulted (the defaulting webhook is a separate webhook
 	// whose failure can be ignored by configuration; the update rule is a property of the validator on every pair)
 	Raw bool `json:"raw,omitempty"`
+	// earlier update requests for the same experiment (same UID) answered by the same validator object before this one:
+	// what was admitted earlier must not matter, the rule is a function of (stored, updated)
+	Pre []prePair `json:"pre,omitempty"`
 }
 
 type c15 struct{}
@@ -167,6 +170,16 @@ func (c15) Gen(r *rand.Rand, i, n int) any {
 		}
 	}
 	in.Old, in.New = old, nw
+	old.UID, nw.UID = "uid-c15", "uid-c15"
+	if r.Intn(4) == 0 {
+		// the same edit was asked for (and probably admitted) earlier, when the experiment was still running with few trials:
+		// a dry run, or a write that another webhook refused
+		earlier := old.DeepCopy()
+		earlier.Status.Conditions = append([]expv1.ExperimentCondition{}, condStates[2]...)
+		earlier.Status.Trials = 0
+		in.Pre = append(in.Pre, prePair{New: nw.DeepCopy(), Old: earlier})
+		in.Muts = append(in.Muts, "after-earlier-request")
+	}
 	if old.Spec.ResumePolicy == "" && edit < 14 && r.Intn(2) == 0 { // budget / metadata / no edit only: crash safety is stated (C14) for defaulted objects
 		in.Raw = true
 		in.Muts = append(in.Muts, "new-not-defaulted")
@@ -214,7 +227,7 @@ func (c15) Run(input any) kit.Case {
 	c.Input = in
 	vo := runValidate(in.World, in.Old, nil, true)
 	_ = withStrings("") // forget the strings of the old object's projection
-	v := runValidate(in.World, in.New, in.Old, !in.Raw)
+	v := runValidate(in.World, in.New, in.Old, !in.Raw, in.Pre...)
 	oldAdmitted := vo.panicked == "" && len(vo.errs) == 0
 	old := fmt.Sprintf("{| o_par := %s; o_max := %s; o_mf := %s; o_rest := %s; o_trials := %s; o_conds := %s; o_resume := %s |}",
 		optZ32(in.Old.Spec.ParallelTrialCount), optZ32(in.Old.Spec.MaxTrialCount), optZ32(in.Old.Spec.MaxFailedTrialCount),
